@@ -379,6 +379,7 @@ func ruleOptions(c *Ctx, prefix string) {
 		}
 		covered[fn] = true
 		checkOptionHandler(c, prefix, fn, sp)
+		checkOptionGlobalsPerProtocol(c, prefix, fn, sp)
 	}
 	// any other built-in handler that emits options must be in the table
 	ro := FindRoots(c.P, c.R)
@@ -733,4 +734,54 @@ func constReturnOf(m *ssa.Function, depth int) (string, bool) {
 		val = k
 	}
 	return val, val != ""
+}
+
+// checkOptionGlobalsPerProtocol: the value a DHCPv4 handler emits is configured
+// by DHCPv4 setups only (and likewise for DHCPv6): a variable written from the
+// other protocol's setup as well carries that section's arguments into this
+// protocol's replies.
+func checkOptionGlobalsPerProtocol(c *Ctx, prefix string, fn *ssa.Function, sp optSpec) {
+	ro := FindRoots(c.P, c.R)
+	v6 := false
+	for _, h := range ro.Handlers6 {
+		if h == fn {
+			v6 = true
+		}
+	}
+	_, other := ReachFirstParty(c.P, ro.Setups4)
+	if !v6 {
+		_, other = ReachFirstParty(c.P, ro.Setups6)
+	}
+	otherSet := map[*ssa.Function]bool{}
+	for _, f := range other {
+		otherSet[f] = true
+	}
+	for _, row := range sp.Rows {
+		for _, gname := range row.Global {
+			i := strings.LastIndex(gname, ".")
+			if i < 0 {
+				continue
+			}
+			g := c.P.Global(gname[:i], gname[i+1:])
+			if g == nil {
+				continue
+			}
+			key := fmt.Sprintf("%s configured per protocol", shortName(gname))
+			bad := ""
+			for _, sto := range findStores(c.P, nil, g) {
+				w := closureRoot(sto.Parent())
+				if w.Name() == "init" {
+					continue
+				}
+				if otherSet[w] {
+					bad = fmt.Sprintf("%s, which %s emits, is also written at %s from a setup of the other protocol (%s): that section's arguments end up in this protocol's replies", shortName(gname), shortFn(fn), c.P.InstrPos(sto), shortFn(w))
+				}
+			}
+			if bad != "" {
+				c.R.bad(prefix+"OPT.VALUE", key, c.P.Pos(g.Pos()), shortFn(fn), bad)
+			} else {
+				c.R.ok(prefix+"OPT.VALUE", key, c.P.Pos(g.Pos()), shortFn(fn), "written only from this protocol's setup")
+			}
+		}
+	}
 }
